@@ -674,25 +674,34 @@ static void respond(int kind, const struct rpdu *q)
 		break;
 	}
 	case RS_DUP:
+	case RS_WD_UNKNOWN: {
+		/*
+		 * the End of Data of the unacceptable response carries a serial the cache never had - or, in C08, the
+		 * serial of data the cache has just published: a client that takes the serial over although it rolls the
+		 * response back is told "nothing new" from then on and keeps the old records for good
+		 */
+		uint32_t s = cache_cur(&CACHE)->serial + 3;
+
+		if (is_prop("C08") && !is_reset && N_PUBLISHED < CFG_MAX_PUBLISH) {
+			cache_publish(&CACHE);
+			N_PUBLISHED++;
+			s = cache_cur(&CACHE)->serial;
+		}
 		pdu_cache_response(&b, ver, CACHE.session);
-		put_other_record(&b, ver, is_reset ? 0x1 : held, true, 1);
-		if (is_reset)
-			put_other_record(&b, ver, 0x1, true, 1);
-		cache_put_eod(&CACHE, &b, ver, CACHE.session, cache_cur(&CACHE)->serial + 3);
+		if (kind == RS_DUP) {
+			put_other_record(&b, ver, is_reset ? 0x1 : held, true, 1);
+			if (is_reset)
+				put_other_record(&b, ver, 0x1, true, 1);
+		} else {
+			put_other_record(&b, ver, is_reset ? 0 : held, false, 0);
+		}
+		cache_put_eod(&CACHE, &b, ver, CACHE.session, s);
 		LAST.has_eod = true;
 		LAST.eod_session = LAST.cr_session = CACHE.session;
-		LAST.eod_serial = cache_cur(&CACHE)->serial + 3;
+		LAST.eod_serial = s;
 		LAST.valid = false;
 		break;
-	case RS_WD_UNKNOWN:
-		pdu_cache_response(&b, ver, CACHE.session);
-		put_other_record(&b, ver, is_reset ? 0 : held, false, 0);
-		cache_put_eod(&CACHE, &b, ver, CACHE.session, cache_cur(&CACHE)->serial + 3);
-		LAST.has_eod = true;
-		LAST.eod_session = LAST.cr_session = CACHE.session;
-		LAST.eod_serial = cache_cur(&CACHE)->serial + 3;
-		LAST.valid = false;
-		break;
+	}
 	case RS_BADLEN:
 		pdu_cache_response(&b, ver, CACHE.session);
 		pdu_hdr(&b, ver, PT_IPV4, 0, 19); /* an IPv4 Prefix PDU claiming 19 bytes */
@@ -1454,5 +1463,7 @@ int main(int argc, char **argv)
 	CFG_CACHE_VER = (int)v_argl("cache-ver", 1);
 	CFG_MAX_PUBLISH = (int)v_argl("max-publish", 2);
 	CFG_MAX_STOPS = (int)v_argl("max-stops", 1);
+	CFG_WITH_X = v_argl("with-x", 1) != 0; /* 0: no records of another source in the tables */
+	CACHE_MASK_ROT = (int)v_argl("mask-rot", 0);
 	return v_main(worker);
 }
